@@ -167,6 +167,8 @@ const ATTRS: &[&str] = &[
     "encoding=\"application/xhtml+xml;q=1\"", "encoding=Text/HTML;", "encoding=application/xhtml", "type=hidden;", "type=\" hidden\"",
     "type=hiddenx", "type=HIDDEN\t", "type=hıdden", "shadowrootmode=opened", "shadowrootmode=OPEN", "shadowrootmode=\"open \"",
     "http-equiv=\"content-type \"", "http-equiv=content-typ", "color", "color=", "face", "size", "selected=no", "multiple=multiple",
+    "content=\"İcharset=x\"", "content=\"İİİİ charset=x\"", "content=\"\u{212A}\u{212A}charset=utf-8\"", "content=\"ſ;charset=y\"", "content=\"charset\"",
+    "content=\"text/html; charſet=z\"", "content=\"😁charset=q\"", "charset=\"İ\"", "http-equiv=Content-Type", "http-equiv=CONTENT-TYPE",
     "nonce=n", "data-a-very-long-attribute-name-0123456789=\"a long value, more than sixteen bytes\"", "title='another quite long value 0123456789'", "=", "a=&amp;", "b=&ampx", "é=ü", "\0=\0", "xlink:bogus=1", "xml:bogus=1", "xmlns:bogus=1",
 ];
 
@@ -227,6 +229,26 @@ const DOCTYPES: &[&str] = &[
 
 const COMMENTS: &[&str] = &["<!---->", "<!--x-->", "<!-- -- -->", "<!-->", "<!--->", "<!--a--!>", "<!--<!--x-->", "<!x>", "<?pi?>", "</ >", "<!--\0-->"];
 
+/// A DOCTYPE from the dictionary, sometimes with a multi-byte / case-mapping-sensitive character
+/// inserted at a random position (identifiers are compared ASCII-case-insensitively, by prefix,
+/// at many different lengths).
+pub fn gen_doctype(s: &mut Src) -> String {
+    let d = s.pick(DOCTYPES).to_string();
+    if !s.chance(70) {
+        return d;
+    }
+    let cs: Vec<char> = d.chars().collect();
+    let at = s.below(cs.len() + 1);
+    let c = *s.pick(&['é', 'İ', '\u{212A}', '😁', 'ſ', 'É', '\u{80}', '\u{7ff}', '\u{800}']);
+    let mut out: String = cs[..at].iter().collect();
+    out.push(c);
+    if s.chance(60) {
+        out.push(c);
+    }
+    out.extend(cs[at..].iter());
+    out
+}
+
 /// A customizable-select block as the standard describes it: select, optional button,
 /// selectedcontent with arbitrary (possibly unclosed) content, then options, some selected.
 fn gen_select_block(s: &mut Src, out: &mut String) {
@@ -277,7 +299,7 @@ pub fn gen_html(s: &mut Src, max_tokens: usize) -> String {
     let misnest = *s.pick(&[10u8, 40, 100]);
     // optional prologue
     if s.chance(50) {
-        out.push_str(*s.pick(DOCTYPES));
+        out.push_str(&gen_doctype(s));
     }
     for _ in 0..n {
         match s.weighted(&[40, 22, 16, 4, 2, 2, 3, 3, 1]) {
@@ -332,7 +354,7 @@ pub fn gen_html(s: &mut Src, max_tokens: usize) -> String {
             },
             2 => out.push_str(*s.pick(TEXTS)),
             3 => out.push_str(*s.pick(COMMENTS)),
-            4 => out.push_str(*s.pick(DOCTYPES)),
+            4 => out.push_str(&gen_doctype(s)),
             5 => {
                 out.push_str("<![CDATA[");
                 out.push_str(*s.pick(&["", "x", "]]", "<b>", "\0", "&amp;"]));
@@ -368,6 +390,8 @@ pub fn gen_html(s: &mut Src, max_tokens: usize) -> String {
                     "<select><button><selectedcontent>", "<select><selectedcontent>", "<selectedcontent>x", "</selectedcontent>",
                     "<option selected>y</option>", "<option selected><b>z</b></option>", "<option selected>", "</button>",
                     "<select multiple><selectedcontent>", "<option>n</option>",
+                    "<template shadowrootmode=open>", "<head><template shadowrootmode=closed>", "<div><template shadowrootmode=open>s</template>",
+                    "<template shadowrootmode=open><template shadowrootmode=open>", "</head>", "<body>",
                     "<table></table>", "<template></template>", "<table><tr></table>", "<td>", "<tr>", "<tbody>", "<caption>", "<col>",
                     "<head></head><link>", "</head><template>", "</head><noframes>", "</head><base>", "</option>", "</table>", "</td>", "</tr>", "</caption>", "</tbody>",
                 ]));
@@ -389,7 +413,7 @@ pub fn gen_html(s: &mut Src, max_tokens: usize) -> String {
                     }
                 } else {
                     // whitespace-only text (matters in table / head / frameset modes)
-                    out.push_str(*s.pick(&[" ", "\n", "\t", " \n ", "\x0C", "\r\n"]));
+                    out.push_str(*s.pick(&[" ", "\n", "\t", " \n ", "\x0C", "\r\n", " ", "\n", "\u{b}", "\u{a0}", "\u{85}", "\u{2028}", "\u{1c}", "\u{3000}"]));
                 }
             },
         }
